@@ -75,7 +75,7 @@ func VP_C05_gd_codec() {
 func c05GDCodec32() {
 	gd := c05SymGD(32)
 	seed := vp.U32("csumSeed")
-	vp.KnownPanic("KF-C05-6", "ext4/groupdescriptors.go:264")
+	vp.KnownPanic("KF-C05-6", "ext4/groupdescriptors.go:264 | slice bounds out of range")
 	vp.NoPanic()
 	b := gd.toBytes(gdtChecksumNone, seed)
 	vp.AllowPanic()
